@@ -19,6 +19,26 @@ CHECKS = {
             "Seeded search over station sets (incl. HSA-1, TS-1, address 0, two-station rings), cold starts, staged joins and graceful leaves: by T0+B_conv every online station must be in the ring with LAS = online set and cyclic neighbours as NS/PS; from then on the same is checked after every poll and every token pass must follow ascending cyclic order for >= G+H+3 rotations.",
             "Trusted: bus/PHY stub; convergence bound B_conv and stability window of DESIGN 5.4; observation through is_in_ring()/inspect_token_ring() and the bus trace only.",
             "deterministic simulation (seeded population plans and poll schedules) with a convergence-then-stability oracle"),
+    "C03": ("dp", "fault_enumeration", "6 C03",
+            "Seeded search over DP configurations (1..3 peripherals, all option values) x fault plans (lost/damaged requests and replies, Byzantine replies of every shape, power cycles, fault flags, user diagnostics requests): a per-peripheral bring-up automaton driven only by requests on the wire (decoded by R1), replies actually delivered to the master and the master's events decides whether each Data_Exchange request was legal; every Set_Prm/Chk_Cfg/Slave_Diag request is compared byte by byte with what the configured options demand.",
+            "Trusted: reference slave R5, R1, the automaton; 'asked to be re-parameterised' is read as a decision of the master (a Set_Prm on the wire), the weaker reading.",
+            "deterministic simulation with fault injection; bring-up automaton on the wire as oracle"),
+    "C04": ("dp", "fault_enumeration", "6 C04",
+            "Seeded search with process-image lengths 0..244, user writes to pi_q at arbitrary instants, every reply shape, losses: shadow copies of every image kept by the harness; every Data_Exchange request must carry the shadow pi_q of that instant, pi_i must equal the shadow after every poll, DataExchanged iff a well-formed reply from the addressed peripheral was delivered; panics count.",
+            "Trusted: shadow bookkeeping, R5, R1. Statuses RDL/RDH/NR are don't-care.",
+            "deterministic simulation with fault injection; shadow-copy (reference model) oracle"),
+    "C07": ("dp", "fault_enumeration", "6 C07",
+            "Fault phase (storms of drops/bit flips/truncations/duplicates, power cycles, Byzantine replies, fault flags, user calls) then a fault-free phase with conforming reference slaves: bounded liveness - within K = 4*(max_retry+3)+8 DP cycles every healthy peripheral is_running() again (with Online and Configured reported if it had gone Offline), switched-off ones are !is_live().",
+            "Trusted: R5 as the definition of a conforming slave incl. FCB retry detection; healthy = powered, matching ident/config/lengths, max_tsdr within the margin of DESIGN 5.1/5.8, watchdog satisfiable by the bus cycle.",
+            "deterministic simulation with fault injection; bounded-liveness oracle after faults stop"),
+    "C08": ("dp", "fault_enumeration", "6 C08",
+            "Seeded search over loss patterns, retry limits 1..15, reply kinds and user calls: per destination the FCB/FCV sequence of consecutive acknowledged-service requests is checked (first after start-up/Offline = FCV0/FCB1; same bit => same request in the FDL sense and no acceptable reply in between; toggle with FCV=1 after an acceptable reply; <= 1+max_retry transmissions without any reply; Offline neither premature nor repeated; only Slave_Diag probes while offline).",
+            "Trusted: R1, the call log. Replies the DP layer may reject are don't-care for toggle and retry count.",
+            "deterministic simulation with fault injection; FCB/retry wire monitor"),
+    "C14": ("dp", "fault_enumeration", "6 C14",
+            "0..4 peripherals in Vec / sparse fixed storage, responsive/silent/faulty mixes, second master and second application (token-hold interruptions, global control mid-cycle): between two cycle_completed reports turns follow slot order, one request plus retransmissions per turn, no peripheral twice; event life-cycle automaton vs. is_live()/is_running() after every poll; every event needs its cause in that poll; hangs and panics count.",
+            "Trusted: call log, events taken after every poll. Silent turns are not observable on the wire.",
+            "deterministic simulation with fault injection; cycle/event accounting oracle"),
 }
 
 PENDING = ["C03", "C04", "C05", "C06", "C07", "C08", "C10", "C11", "C12", "C13", "C14", "C15", "C16", "C18"]
